@@ -384,6 +384,7 @@ def oracle_seq(ops, script, out):
     word = ""
     pos = 0
     delivered = False
+    closed_called = False
     prev = (0, 0)
     for i, (c, (fin, vals, fwd, recvs, cs, as_)) in enumerate(zip(ops, recs)):
         at = "call %d (code %d)" % (i, c)
@@ -401,6 +402,12 @@ def oracle_seq(ops, script, out):
             if not LEGAL.match(before + want):
                 if not failed:
                     return "%s: illegal call (would make the sequence %r) did not raise" % (at, before + want)
+        # 2b. once close() has been called successfully the application side is closed, whether or not a close
+        #     event had to be forwarded (the client may have gone already): accept / send calls after it are illegal
+        if closed_called and want in ("a", "s") and not failed:
+            return "%s: a send-type call after close() did not raise (forwarded %s)" % (at, fwd or "nothing")
+        if c == 6 and fin == "ok":
+            closed_called = True
         # 5. close can be called any number of times
         if c == 6:
             if fin != "ok":
